@@ -19,7 +19,7 @@ from ..coqrun import cN, cZ, cbool, clist
 from ..tok import S
 
 PID = "C18"
-COQ_HEADER = ("From Coq Require Import List NArith ZArith.\nFrom SK Require Import lib.Tok model.C18_Model model.C18_AttrModel model.C18_WLModel model.C18_BackendModel.\n"
+COQ_HEADER = ("From Coq Require Import List NArith ZArith.\nFrom SK Require Import lib.Tok model.C18_Model model.C18_AttrModel model.C18_WLModel model.C18_BackendModel model.C18_DepthModel model.C18_RunModel model.C18_AutAttrModel model.C18_SpAttrModel.\n"
               "Import ListNotations.\n")
 SHARD = 60
 IMPL_TIMEOUT = 1500
@@ -32,8 +32,9 @@ RULE = ("reaction networks in both views (bipartite with / without stoichiometry
         "many renamings; 11-reaction networks (two-digit ids); sequences of analyses with different options on ONE "
         "hypergraph object, mutated in between; histories on one object with count-preserving in-place edits (reaction replaced under its id, "
         "coefficient edited, species removed but kept), results scribbled on and analyzers re-read; integer_ids; degenerate values (empty "
-        "network, isolated / falsy-labelled species, null steps, empty sides); non-default attribute selections and WL options (oracle only); "
-        "chains of 12 / 40 reactions; a case is non-trivial when some view has >= 4 nodes and either a "
+        "network, isolated / falsy-labelled species, null steps, empty sides); non-default attribute selections and WL options (bipartite view: "
+        "in the model); kept analyzers read again after method edits / edits behind the hypergraph's back (backend state machine in the model); "
+        "max_depth of the canonicaliser and max_count of the VF2 tool; chains of 12 / 40 reactions; a case is non-trivial when some view has >= 4 nodes and either a "
         "non-singleton cell survives the first refinement (individualisation needed) or a non-trivial automorphism exists; "
         "distinct = distinct (configuration, list of networks)")
 EXHAUSTIVE = {"quick": True, "thorough": True}
@@ -44,12 +45,16 @@ EXPLANATION = ("exhaustive sub-space (both tiers): all networks with <= 2 reacti
                "bijection onto k+1..k+n; identical canonical graph under injective renaming and re-ordering; equal canonical graphs "
                "force isomorphic views; the minimal leaves enumerate the structure-preserving self-maps without repetition. The "
                "model is tied to the code by comparing the view, every _refine argument/result, the canonical permutation and label, "
-               "all minimal leaves, orbits, canonical graph, the VF2 count/orbits and the decidable premises on every case.")
+               "all minimal leaves, orbits, canonical graph, the VF2 count/orbits (reference union-find AND the code's own parent-dict "
+               "union-find), the WL cells / estimate and the decidable premises on every case; the views served by kept analyzers in every "
+               "history; the answers under max_depth / max_count on the option cases.")
 TRUSTED_BASE = [
     "Coq 8.16.1 kernel + vm_compute (no native_compute)",
     "hand-written model coq/model/C18_Model.v tied to synkit/CRN/Topo/{canon,automorphism}.py and the two view converters "
     "by the per-run correspondence (view, every _refine call, permutation, label, leaves, orbits, canonical graph, VF2 count, premises)",
-    "harness encoders harness/props/C18.py (order-preserving interning of node ids: rank in Python string order; kind/role codes)",
+    "harness encoders harness/props/C18.py (order-preserving interning of node ids: rank in Python string order; kind/role codes; "
+    "the classification of a history's edits into method calls (version bumped) and edits of a side object (not bumped))",
+    "blake2b digests of WLCanonicalizer do not collide on the compared views (the model ranks signatures instead of hashing them)",
     "networkx DiGraph semantics (add_node/add_edge update, relabel_nodes) and DiGraphMatcher.isomorphisms_iter as an "
     "enumerator of the self-isomorphisms (explicit premise of C18_vf2_count: it returns as many mappings as the model's verified "
     "reference enumerator; compared on every case)",
@@ -57,15 +62,20 @@ TRUSTED_BASE = [
 ]
 ASSUMPTIONS = ["species labels are disjoint from reaction ids (the views put both in one namespace; the collision is the known finding "
                "C18:view-id-collision, theorem C18_species_renaming_refuted); clause 2 is therefore proved for renamings of the VIEW's nodes",
-               "model: default node_attr_keys=('kind',) and edge_attr_keys=('role','stoich'); integer_ids=True is modelled through the encoding "
-               "(the model receives the network with the converter's numbers as ids; C18_net_renamed_ids); non-default attribute selections "
+               "model: default node_attr_keys=('kind',) and edge_attr_keys=('role','stoich'); integer_ids=True is computed inside the model "
+               "(coq/model/C18_IntIdsModel.v; C18_intids_canon, C18_net_renamed_ids); non-default attribute selections "
                "on the bipartite view are modelled in coq/model/C18_AttrModel.v (C18_attr_default: the default selection is the base model; "
-               "C18_attr_canon_iso: clause 1 for every selection; clauses 2-4 for non-default selections are judged by the oracle); species-view "
-               "selections and WL options are judged by the oracle only",
+               "C18_attr_canon_iso: clause 1 for every selection; clauses 2-4 for non-default selections are judged by the oracle; the VF2 tool under a "
+               "node selection: C18_vf2_attr_*); WL options are modelled in coq/model/C18_WLModel.v; species-view selections on the aggregates "
+               "stoich_r / stoich_p in coq/model/C18_SpAttrModel.v (C18_spattr_*), on the name-dependent sets (via / rules / maps) oracle only",
+               "a kept analyzer serves the current network only after edits through the hypergraph's mutating methods (documented; "
+               "C18_backend_serves_current / C18_backend_silent_edit_refuted): the oracle judges fresh analyzers only",
                "views above 45 nodes are judged by the oracle only (the model's refinement is O(n^4) under vm_compute)",
-               "stoichiometric coefficients are positive integers", "no max_depth / timeout given to the canonicaliser"]
-TESTED_NOT_PROVED = ["WLCanonicalizer (documented as approximate): its canonical graph is isomorphic to the view and its colour cells "
-                     "never split a true orbit (oracle only)",
+               "stoichiometric coefficients are positive integers",
+               "the property's clauses are judged without max_depth / timeout / max_count (with them: correspondence + C18_max_depth_* / "
+               "C18_vf2_bookkeeping); timeouts are never given"]
+TESTED_NOT_PROVED = ["WLCanonicalizer: its canonical graph (a relabelling by digest order) is isomorphic to the view (oracle only; that its colour "
+                     "cells never split a true orbit is proved for the model: C18_wl_never_splits_orbit)",
                      "VF2 enumerates exactly the self-isomorphisms (premise of C18_vf2_count, compared per case)",
                      "graph()/orbits()/has_nontrivial_automorphism()/canonical()/iter()/detect_automorphisms() agree with summary() (oracle)"]
 
@@ -110,23 +120,19 @@ def _build(net):
     return H
 
 
-def _table(H, view="bip", intids=False):
-    """order-preserving interning of the node ids of the view: name -> N.  Default: rank of the name in the namespace shared
-    by both views.  integer_ids=True (bipartite view only): the converter numbers the sorted species 1..N and the reactions,
-    sorted by id, N+1..N+M; the interned value is that number - 1"""
-    if intids and view == "bip":
-        names = sorted(H.species) + [eid for eid, _ in sorted(H.edges.items())]
-        return {n: i for i, n in enumerate(names)}
+def _table(H):
+    """order-preserving interning of the names of a network: name -> N = rank of the name in the namespace shared by species
+    labels and reaction ids"""
     names = sorted(set(H.species) | set(H.edges.keys()))
     return {n: i for i, n in enumerate(names)}
 
 
 def _node_rank(H, view, intids):
-    """view node id -> N"""
-    t = _table(H, view, intids)
+    """view node id -> N.  integer_ids=True (bipartite view): the ids are the converter's numbers 1..N+M, which the model
+    computes itself (coq/model/C18_IntIdsModel.v) from the network under the default table"""
     if intids and view == "bip":
-        return {i + 1: i for i in range(len(t))}
-    return t
+        return {i + 1: i + 1 for i in range(len(H.species) + len(H.edges))}
+    return _table(H)
 
 
 def _keyed_graph(G, rank=None):
@@ -180,9 +186,19 @@ def _impl_H(H, view, stoich, intids=False, keep=None):
         log.append([[[rank[v] for v in c] for c in part], [[rank[v] for v in c] for c in out]])
         return out
 
+    labs = []
+    orig_label = C._label
+
+    def wrapped_label(G_, perm):
+        lab = orig_label(G_, perm)
+        labs.append([[rank[v] for v in perm], lab])
+        return lab
+
     C._refine = wrapped
+    C._label = wrapped_label
     s = C.summary()
     C._refine = orig          # the analyzer may be kept and read again later (on another network): log the first analysis only
+    C._label = orig_label
     nodes, arcs = _keyed_graph(G, rank)
     cn, ca = _keyed_graph(s["canon_graph"])
     AA = CRNAutomorphism(H, include_rule=inc, include_stoich=stoich, integer_ids=intids)
@@ -199,7 +215,9 @@ def _impl_H(H, view, stoich, intids=False, keep=None):
             A["automorphism_count"],
             S([S(sorted(rank[v] for v in o)) for o in A["orbits"]]),
             _premises(G),
-            [S([[rank[k], rank[v]] for k, v in m.items()]) for m in s["mappings"]]] + _wl_obs(H, rank, inc, stoich, dict(integer_ids=intids), keep)
+            [S([[rank[k], rank[v]] for k, v in m.items()]) for m in s["mappings"]]] + _wl_obs(H, rank, inc, stoich, dict(integer_ids=intids), keep) + \
+        [S([S(sorted(rank[v] for v in o)) for o in A["orbits"]]),      # compared with the structure-following union-find (C18_UFModel.v)
+         labs if len(labs) <= MAX_LEAVES_LOGGED else []]                 # every _label call of the search: (leaf permutation, label)
 
 
 def _add_extra(H, net0, net1):
@@ -432,16 +450,57 @@ _NODE_KEYS = {"kind", "bipartite", "label"}          # attributes the bipartite 
 _EDGE_KEYS = {"role", "stoich"}
 
 
+_SP_EDGE_SETS = {"via", "rules", "stoich_r_map", "stoich_p_map"}      # name-dependent sets / maps on the species view's arcs: not modelled
+NSEL_SP = {"kind": "NKind", "label": "NLabel"}                          # the species view has no 'bipartite' attribute
+ESEL_SP = {"stoich_r": "SR", "stoich_p": "SP"}
+
+
 def _attr_modelled(case):
-    """attribute selections on the bipartite view are in the model (coq/model/C18_AttrModel.v); the species view's edge
-    attributes (via / rules / stoich maps) are not"""
-    return bool(case.get("attrs")) and case["view"] == "bip" and not case.get("intids")
+    """attribute selections on the bipartite view are in the model (coq/model/C18_AttrModel.v); on the species view
+    (coq/model/C18_SpAttrModel.v) the aggregates stoich_r / stoich_p and absent keys are, the name-dependent sets (via / rules /
+    per-reaction maps) are not"""
+    at = case.get("attrs")
+    if not at or case.get("intids"):
+        return False
+    if case["view"] == "bip":
+        return True
+    return not (set(at.get("ek", ("role", "stoich"))) & _SP_EDGE_SETS) and "mol" not in at.get("nk", ())
+
+
+def _keyed_graph_sp(G, rank=None):
+    f = (lambda x: rank[x]) if rank is not None else (lambda x: x)
+    nodes = sorted([f(n), KIND[d.get("kind")]] for n, d in G.nodes(data=True))
+    arcs = sorted([f(u), f(v), int(d["stoich_r"]), int(d["stoich_p"])] for u, v, d in G.edges(data=True))
+    return nodes, arcs
+
+
+def _impl_spattr_net(net, nk, ek):
+    from synkit.CRN.Topo.canon import CRNCanonicalizer
+    H = _build(net)
+    rank = _table(H)
+    C = CRNCanonicalizer(H, include_rule=False, node_attr_keys=list(nk), edge_attr_keys=list(ek))
+    G = C.G
+    log = []
+    orig = C._refine
+
+    def wrapped(G_, part):
+        out = orig(G_, part)
+        log.append([[[rank[v] for v in c] for c in part], [[rank[v] for v in c] for c in out]])
+        return out
+
+    C._refine = wrapped
+    s = C.summary()
+    nodes, arcs = _keyed_graph_sp(G, rank)
+    cn, ca = _keyed_graph_sp(s["canon_graph"])
+    return [S(nodes), S(arcs), [list(x) for x in log], [rank[v] for v in s["canonical_perm"]], C._label(G, s["canonical_perm"]),
+            s["automorphism_count"], [[rank[v] for v in p] for p in s["sample_permutations"]],
+            S([S(sorted(rank[v] for v in o)) for o in s["orbits"]]), S(cn), S(ca)]
 
 
 def _impl_attr_net(net, st, nk, ek, wl=None):
     from synkit.CRN.Topo.canon import CRNCanonicalizer
     H = _build(net)
-    rank = _node_rank(H, "bip", False)
+    rank = _table(H)
     C = CRNCanonicalizer(H, include_rule=True, include_stoich=st, node_attr_keys=list(nk), edge_attr_keys=list(ek))
     G = C.G
     log = []
@@ -459,16 +518,23 @@ def _impl_attr_net(net, st, nk, ek, wl=None):
     return [S(nodes), S(arcs), [list(x) for x in log], [rank[v] for v in s["canonical_perm"]], C._label(G, s["canonical_perm"]),
             s["automorphism_count"], [[rank[v] for v in p] for p in s["sample_permutations"]],
             S([S(sorted(rank[v] for v in o)) for o in s["orbits"]]), S(cn), S(ca)] + \
-        _wl_obs(H, rank, True, st, dict(node_attr_keys=list(nk), edge_attr_keys=list(ek), **(wl or {})))
+        _wl_obs(H, rank, True, st, dict(node_attr_keys=list(nk), edge_attr_keys=list(ek), **(wl or {}))) + _vf2_attr_obs(H, rank, st, nk)
 
 
-def _coq_ltab(net):
+def _vf2_attr_obs(H, rank, st, nk):
+    """the VF2 tool under the node selection (its edge match is always role / stoich)"""
+    from synkit.CRN.Topo.automorphism import CRNAutomorphism
+    A = CRNAutomorphism(H, include_rule=True, include_stoich=st, node_attr_keys=list(nk)).summary(max_count=10 ** 9, timeout_sec=None)
+    return [A["automorphism_count"], S([S(sorted(rank[v] for v in o)) for o in A["orbits"]])]
+
+
+def _coq_ltab(net, view="bip"):
     """node -> (rank of its 'label' string among the label strings of the view, the string): species are labelled with their
-    name, reaction nodes with the rule name"""
+    name, reaction nodes (bipartite view) with the rule name"""
     H = _build(net)
     rank = _table(H)
     lab = {s: s for s in H.species}
-    for eid, e in H.edges.items():
+    for eid, e in (H.edges.items() if view == "bip" else ()):
         lab[eid] = e.rule                  # on an id collision the reaction node overwrites the species node, as in the view
     order = {x: i for i, x in enumerate(sorted(set(lab.values())))}
     ent = ["(%s, (%s, %s))" % (cN(rank[n]), cZ(order[x]), clist([cN(ord(ch)) for ch in x])) for n, x in sorted(lab.items(), key=lambda kv: rank[kv[0]])]
@@ -479,6 +545,8 @@ def _impl_attrs(case):
     """non-default attribute selections: bipartite view in the model; species view / WL options informative only"""
     from synkit.CRN.Topo.canon import CRNCanonicalizer
     at = case["attrs"]
+    if _attr_modelled(case) and case["view"] == "sp":
+        return [_impl_spattr_net(n, at.get("nk", ("kind",)), at.get("ek", ("role", "stoich"))) for n in case["nets"]]
     if _attr_modelled(case):
         return [_impl_attr_net(n, case["stoich"], at.get("nk", ("kind",)), at.get("ek", ("role", "stoich")), at.get("wl")) for n in case["nets"]]
     out = []
@@ -501,14 +569,70 @@ def impl(case):
         return out + [reads]
     if case.get("steps"):
         return _impl_seq(case)
+    if case.get("mds"):
+        return _impl_depth(case)
+    if case.get("ks"):
+        return _impl_vf2opts(case)
     return [_impl_net(n, case["view"], case["stoich"], case.get("intids", False)) for n in case["nets"]]
+
+
+def _impl_depth(case):
+    """summary(max_depth=d) for every d of the case: [] when _canon raises (no leaf within the depth), else early_stop, permutation,
+    label, count, minimal leaves, orbits, canonical graph"""
+    from synkit.CRN.Topo.canon import CRNCanonicalizer, canonical
+    inc, st = case["view"] == "bip", case["stoich"]
+    out = []
+    for net in case["nets"]:
+        H = _build(net)
+        rank = _table(H)
+        per = []
+        for md in case["mds"]:
+            C = CRNCanonicalizer(H, include_rule=inc, include_stoich=st)
+            try:
+                s = C.summary(max_depth=md)
+            except RuntimeError:
+                per.append([])
+                continue
+            cn, ca = _keyed_graph(s["canon_graph"])
+            # the thin wrappers forward max_depth: graph(), orbits(), has_nontrivial_automorphism(), canonical()
+            C2 = CRNCanonicalizer(H, include_rule=inc, include_stoich=st)
+            gn, ga = _keyed_graph(C2.graph(max_depth=md))
+            gn3, ga3 = _keyed_graph(canonical(H, include_rule=inc, include_stoich=st, max_depth=md).graph(max_depth=md))
+            per.append([bool(s["early_stop"]), [rank[v] for v in s["canonical_perm"]], C._label(C.G, s["canonical_perm"]),
+                        s["automorphism_count"], [[rank[v] for v in p] for p in s["sample_permutations"]],
+                        S([S(sorted(rank[v] for v in o)) for o in s["orbits"]]), S(cn), S(ca),
+                        S(gn), S(ga), S([S(sorted(rank[v] for v in o)) for o in C2.orbits(max_depth=md)]),
+                        bool(C2.has_nontrivial_automorphism(max_depth=md)), S(gn3), S(ga3)])
+        out.append(per)
+    return out
+
+
+def _impl_vf2opts(case):
+    """CRNAutomorphism.summary(max_count=k): orbits of the complete run; per k the bookkeeping (automorphism_count, stopped_early,
+    number of sample mappings, mapping_count_used).  Which mappings a truncated run has seen depends on VF2's order: not compared"""
+    from synkit.CRN.Topo.automorphism import CRNAutomorphism, detect_automorphisms
+    inc, st, ii = case["view"] == "bip", case["stoich"], bool(case.get("intids", False))
+    out = []
+    for net in case["nets"]:
+        H = _build(net)
+        rank = _node_rank(H, case["view"], ii)
+        full = CRNAutomorphism(H, include_rule=inc, include_stoich=st, integer_ids=ii).summary(max_count=10 ** 9, timeout_sec=None)
+        per = []
+        for k in case["ks"]:
+            a = CRNAutomorphism(H, include_rule=inc, include_stoich=st, integer_ids=ii).summary(max_count=k, timeout_sec=None)
+            n_iter = len(list(CRNAutomorphism(H, include_rule=inc, include_stoich=st, integer_ids=ii).iter(max_count=k, timeout_sec=None)))
+            d = detect_automorphisms(H, include_rule=inc, include_stoich=st, integer_ids=ii, max_count=k, timeout_sec=None)
+            per.append([a["automorphism_count"], bool(a["stopped_early"]), len(a["sample_mappings"]), a["mapping_count_used"],
+                        n_iter, d["automorphism_count"], bool(d["stopped_early"])])
+        out.append([S([S(sorted(rank[v] for v in o)) for o in full["orbits"]]), per])
+    return out
 
 
 # ------------------------------------------------------------------ model encoder
 
-def _coq_net(net, view="bip", intids=False, rank=None):
+def _coq_net(net, rank=None):
     H = _build(net)
-    rank = _table(H, view, intids) if rank is None else rank
+    rank = _table(H) if rank is None else rank
     sp = clist([cN(rank[s]) for s in sorted(H.species)])
     rx = []
     for eid, e in H.edges.items():
@@ -518,6 +642,7 @@ def _coq_net(net, view="bip", intids=False, rank=None):
     return "(Net %s %s)" % (sp, clist(rx))
 
 
+MAX_LEAVES_LOGGED = 60       # the (leaf, label) log of a search is part of the observable up to this many leaves (same rule in C18_RunModel.v)
 MODEL_MAX_NODES = 45         # the Gallina model is evaluated by vm_compute; its refinement is O(n^4): larger views are judged by the oracle only
 
 
@@ -526,11 +651,16 @@ def coq_case(case):
         if not _attr_modelled(case):
             return None      # species-view attribute selections: outside the model, oracle only
         at = case["attrs"]
+        if case["view"] == "sp":
+            nk = clist([NSEL_SP.get(k, "NNone") for k in at.get("nk", ("kind",))])
+            ek = clist([ESEL_SP.get(k, "SNone") for k in at.get("ek", ("role", "stoich"))])
+            nets = clist(["(%s, %s)" % (_coq_net(n), _coq_ltab(n, "sp")) for n in case["nets"]])
+            return "run_spattr_case %s %s %s" % (nets, nk, ek)
         nk = clist([NSEL.get(k, "NNone") for k in at.get("nk", ("kind",))])
         ek = clist([ESEL.get(k, "ENone") for k in at.get("ek", ("role", "stoich"))])
         nets = clist(["(%s, %s)" % (_coq_net(n), _coq_ltab(n)) for n in case["nets"]])
         wl = at.get("wl", {})
-        return "run_attr_wl_case %s %s %s %s %s %s %s %s %s" % (
+        return "run_attr_all_case %s %s %s %s %s %s %s %s %s" % (
             cbool(case["stoich"]), nets, nk, ek, cbool(wl.get("include_in_neighbors", True)), cbool(wl.get("include_out_neighbors", True)),
             "%d%%nat" % wl.get("n_iter", 20), cbool(wl.get("estimate_automorphisms", True)), cN(wl.get("automorphism_cap", 10 ** 18)))
     if case.get("nomodel"):
@@ -538,18 +668,25 @@ def coq_case(case):
     if any(len({s for _, _, l, r in n["rxns"] for s, _ in l + r} | set(n.get("iso", []))) + len(n["rxns"]) > MODEL_MAX_NODES for n in case["nets"]):
         return None
     if case.get("ops"):
-        terms = ["run_net_wl %s %s %s" % (cbool(view == "bip"), cbool(st), _coq_net(net, view, intids))
+        terms = ["run_net_full %s %s %s %s" % (cbool(view == "bip"), cbool(st), cbool(intids), _coq_net(net))
                  for net, view, st, intids in _history_nets(case)]
         rank, steps, _ = _hist_plan(case)
         terms.append("run_history %s %s" % (_coq_net(case["nets"][0], rank=rank), clist(steps)))
         return "L %s" % clist(terms)
     if case.get("steps"):
-        terms = ["run_net_wl %s %s %s" % (cbool(view == "bip"), cbool(st), _coq_net(net, view, intids))
+        terms = ["run_net_full %s %s %s %s" % (cbool(view == "bip"), cbool(st), cbool(intids), _coq_net(net))
                  for net in case["nets"] for view, st, intids in case["steps"]]
         return "L %s" % clist(terms)
-    ii = case.get("intids", False)
-    return "run_case_wl %s %s %s" % (cbool(case["view"] == "bip"), cbool(case["stoich"]),
-                                  clist([_coq_net(n, case["view"], ii) for n in case["nets"]]))
+    ii = bool(case.get("intids", False))
+    if case.get("mds"):
+        mds = clist(["None" if d is None else "(Some %d%%nat)" % d for d in case["mds"]])
+        return "L %s" % clist(["run_md_case %s %s %s %s" % (cbool(case["view"] == "bip"), cbool(case["stoich"]), _coq_net(n), mds) for n in case["nets"]])
+    if case.get("ks"):
+        ks = clist([cZ(k) for k in case["ks"]])
+        return "L %s" % clist(["run_vf2opts %s %s %s %s %s" % (cbool(case["view"] == "bip"), cbool(case["stoich"]), cbool(ii), _coq_net(n), ks)
+                               for n in case["nets"]])
+    return "run_case_full %s %s %s %s" % (cbool(case["view"] == "bip"), cbool(case["stoich"]), cbool(ii),
+                                       clist([_coq_net(n) for n in case["nets"]]))
 
 
 # ------------------------------------------------------------------ property oracle (independent reference)
@@ -710,6 +847,25 @@ def _api_consistency(H, inc, st, s, A, auts, where, ckw=None, akw=None, auts_v=N
     return out[:1]
 
 
+def _wl_api(H, inc, st, W, ckw, wlkw, where):
+    """the other entry points of the WL tool (orbits(), graph(), a second summary(), the functional wrapper wl_canonical) tell the
+    same story as the first summary() under the same options"""
+    from synkit.CRN.Topo.wl_canon import WLCanonicalizer, wl_canonical
+    key = lambda G_: (sorted((repr(n), repr(sorted(d.items(), key=repr))) for n, d in G_.nodes(data=True)),
+                      sorted((repr(u), repr(v), repr(sorted(d.items(), key=repr))) for u, v, d in G_.edges(data=True)))
+    ref = (sorted(sorted(map(repr, o)) for o in W["orbits"]), W["automorphism_count"], key(W["canon_graph"]))
+    out = []
+    W2 = WLCanonicalizer(H, include_rule=inc, include_stoich=st, **ckw, **wlkw)
+    got = (sorted(sorted(map(repr, o)) for o in W2.orbits()), W2.summary()["automorphism_count"], key(W2.graph()))
+    if got != ref:
+        out.append(dict(clause="api-consistency", detail="WLCanonicalizer.orbits()/graph()/second summary() = %r, first summary() %r: %s" % (got[:2], ref[:2], where)))
+    W3 = wl_canonical(H, include_rule=inc, include_stoich=st, **ckw, **wlkw).summary()
+    got = (sorted(sorted(map(repr, o)) for o in W3["orbits"]), W3["automorphism_count"], key(W3["canon_graph"]))
+    if got != ref:
+        out.append(dict(clause="api-consistency", detail="wl_canonical(...) = %r, WLCanonicalizer(...).summary() %r: %s" % (got[:2], ref[:2], where)))
+    return out[:1]
+
+
 def _oracle_seq(case):
     """every analysis of the sequence on the shared, later mutated, hypergraph object must answer exactly what a fresh
     object built for that network answers (view, canonical graph, counts, orbits)"""
@@ -829,9 +985,13 @@ def oracle(case):
         H = _build(net)
         C = CRNCanonicalizer(H, include_rule=inc, include_stoich=st, **ckw)
         G = C.G
-        s = C.summary()
-        Gc = s["canon_graph"]
         where = "%s net %d [%s]" % (cfg, i, _fmt_net(net))
+        try:
+            s = C.summary()
+        except Exception as exc:        # no max_depth / timeout was given: every network must get a canonical graph
+            fails.append(dict(clause="canon-crash", detail="CRNCanonicalizer.summary() raises %s(%s): %s" % (type(exc).__name__, exc, where)))
+            continue
+        Gc = s["canon_graph"]
         # (1) canonical graph isomorphic to the view (all attributes)
         full_n = lambda d: tuple(sorted((k, repr(v)) for k, v in d.items()))
         if not _isos(G, Gc, full_n, full_n, limit=1):
@@ -868,6 +1028,7 @@ def oracle(case):
         # (4b) the other public entry points must tell the same story as summary() (not for the bulk exhaustive family)
         if case.get("kind") != "exh3":
             fails += _api_consistency(H, inc, st, s, A, auts, where, ckw, akw, auts_v)
+            fails += _wl_api(H, inc, st, W, ckw, wlkw, where)
         data.append((G, ksel(Gc) if at else _keyed_graph(Gc), where))
     # (5) identical canonical graphs exactly for isomorphic views; declared variants must be identical
     collide = any(_collides(n) for n in case["nets"])
@@ -875,8 +1036,8 @@ def oracle(case):
         for j in range(i + 1, len(data)):
             same = data[i][1] == data[j][1]
             iso = bool(_isos(data[i][0], data[j][0], nsel, esel, limit=1))
-            if "label" in nk:
-                continue            # labels are names: renaming is not an isomorphism on this selection
+            if "label" in nk or (set(ek) & _SP_EDGE_SETS):
+                continue            # labels / reaction-id sets / rule-name sets are names: renaming is not an isomorphism on this selection
             if i == 0 and case["rel"][j] == "variant" and not same:
                 key = "C18:view-id-collision" if collide else None
                 fails.append(dict(clause="canon-invariant", key=key,
@@ -968,10 +1129,10 @@ def distribution(cases, obss):
         cfg[k] = cfg.get(k, 0) + 1
         for r in c["rel"]:
             rels[r] = rels.get(r, 0) + 1
-        if not (isinstance(obs, list) and obs and isinstance(obs[0], list) and len(obs[0]) == 16):
+        if not (isinstance(obs, list) and obs and isinstance(obs[0], list) and len(obs[0]) == 18):
             continue
         for o in obs:
-            if not (isinstance(o, list) and len(o) == 16):
+            if not (isinstance(o, list) and len(o) == 18):
                 continue           # the list of re-reads of a history
             nets += 1
             n = len(o[0]["__set__"])
@@ -1278,7 +1439,9 @@ def _collision_cases():
     """a species whose label equals a reaction id: both views put them in one namespace (known finding)"""
     base = _net_of([((("A", 1),), (("B", 1),))])
     ren = _net_of([((("r_1", 1),), (("B", 1),))])
-    return [_case("collision", "bip", True, [base, ren], ["base", "variant"])]
+    # under integer_ids=True species and reactions are numbered separately: no collision, the variant must be identical
+    return [_case("collision", "bip", True, [base, ren], ["base", "variant"]),
+            _case("collision", "bip", True, [base, ren], ["base", "variant"], intids=True)]
 
 
 STEP_SEQS = [
@@ -1484,6 +1647,9 @@ ATTR_SELECTIONS_SP = [
     dict(nk=["kind"], ek=["stoich_r", "stoich_p"]),
     dict(nk=["kind"], ek=["stoich_p"]),
     dict(nk=[], ek=[]),
+    dict(nk=["label", "kind"], ek=["stoich_r"]),
+    dict(nk=["bipartite", "kind"], ek=["stoich_p", "role", "stoich_r", "stoich_p"]),
+    dict(nk=["kind"], ek=["via"]),                  # name-dependent: oracle only
 ]
 
 
@@ -1498,9 +1664,14 @@ def _attr_cases(rng):
     fams.append((sp, rxs))
     fams.append((["A", "B", "C"], [((("A", 2),), (("C", 1),)), ((("B", 1),), (("C", 1),))]))
     fams.append((["A", "B", "X"], [((("A", 1), ("X", 1)), (("B", 1), ("X", 1))), ((("B", 2),), (("A", 1),))]))
+    # one (reactant, product) pair inside several reactions with different coefficients: the species view aggregates by minimum
+    fams.append((["A", "B", "C"], [((("A", 2),), (("B", 3),)), ((("A", 3), ("C", 1)), (("B", 2),)), ((("A", 4),), (("B", 4), ("C", 2)))]))
+    fams.append(([], []))          # the empty network under every selection (one run of each tool on the graph without nodes)
     for k, (sp, rxs) in enumerate(fams):
         nets = [_net_of(rxs), _variant(rxs, rng, sp, _names(rng, len(sp))), _variant(_tweak(rxs, rng), rng, sp, sp)]
         rel = ["base", "variant", "other"]
+        if not sp:
+            nets, rel = nets[:1], rel[:1]
         for at in ATTR_SELECTIONS:
             out.append(_case("attrs", "bip", (k % 2 == 0) or ("stoich" in at["ek"]), nets, rel, attrs=at))
         for at in ATTR_SELECTIONS_SP:
@@ -1517,6 +1688,41 @@ def _big_cases(rng, sizes):
         for view, st, ii in (("bip", True, False), ("sp", True, False), ("bip", True, True)):
             nets = [_net_of(chain), _variant(chain, rng, sp, ["k%03d" % j for j in rng.sample(range(900), len(sp))])]
             out.append(_case("big", view, st, nets, ["base", "variant"], intids=ii))
+    return out
+
+
+def _option_cases(rng):
+    """options of the two exact tools: max_depth of the canonicaliser (early stop / RuntimeError / exact answer) and max_count of
+    the VF2 tool (bookkeeping of a truncated run), on symmetric and rigid networks"""
+    out = []
+    fams = []
+    sp, rxs = _ring(4, "uni")
+    fams.append((sp, rxs))
+    sp, rxs = _ring(3, "pcat")
+    fams.append((sp, rxs))
+    sp = ["A0", "A1", "A2", "C"]
+    fams.append((sp, [(((sp[i], 1),), (("C", 1),)) for i in range(3)]))
+    S_ = ["S1", "S2", "S3", "S4"]
+    fams.append((["hub"] + S_, [((("hub", 1),), tuple((x, 1) for x in S_))]))
+    fams.append((["A", "B", "C"], [((("A", 1),), (("B", 1),)), ((("B", 1),), (("C", 2),))]))        # rigid
+    fams.append(([], []))                                                                         # empty network
+    # leaves at different depths (a 2-cycle and a loop look alike to the refinement: the branch through the loop node is deeper):
+    # with max_depth = 1 the search stops early AFTER it has found leaves -- early_stop = True with an answer
+    fams.append((["A", "C", "E"], [((("A", 1),), (("C", 1),)), ((("C", 1),), (("A", 1),)), ((("E", 1),), (("E", 1),))]))
+    # ... and with the loop node BETWEEN the two others in name order the stop comes before the second minimal leaf was visited:
+    # the truncated answer (count 1) differs from the exact one (count 2)
+    fams.append((["A", "B", "C"], [((("A", 1),), (("C", 1),)), ((("C", 1),), (("A", 1),)), ((("B", 1),), (("B", 1),))]))
+    fams.append((["A", "B", "C", "D", "E"], [((("A", 1),), (("A", 1),)), ((("A", 1),), (("B", 1),)), ((("B", 1),), (("A", 1),)),
+                                              ((("C", 1),), (("D", 1),)), ((("D", 1),), (("C", 1),)), ((("E", 1),), (("E", 1),))]))
+    mds = [0, 1, 2, 3, 4, 9, None]
+    for sp, rxs in fams:
+        for view, st in (("bip", True), ("sp", True), ("bip", False)):
+            nets = [_net_of(rxs)] + ([_variant(rxs, rng, sp, _names(rng, len(sp)))] if sp else [])
+            rel = ["base"] + (["variant"] if sp else [])
+            out.append(dict(_case("depth", view, st, nets, rel), mds=mds))
+            for ii in ((False, True) if view == "bip" and st else (False,)):
+                c = dict(_case("vf2opts", view, st, nets, rel, intids=ii), ks=[-1, 0, 1, 2, 3, 5, 6, 7, 24, 100])
+                out.append(c)
     return out
 
 
@@ -1572,6 +1778,7 @@ def gen_cases(tier, rng):
     cases += _degenerate_cases(rng)
     cases += _bigsym_cases(rng, [6], [6]) if tier == "quick" else _bigsym_cases(rng, [6, 7], [6])
     cases += _intids_cases(rng)
+    cases += _option_cases(rng)
     cases += _attr_cases(rng)
     cases += _hist_cases(rng, 30 if tier == "quick" else 300)
     cases += _big_cases(rng, [12, 40] if tier == "quick" else [12, 40, 100])
@@ -1593,8 +1800,8 @@ def gen_cases(tier, rng):
     return cases
 
 
-LEVEL_TEXT = ("Machine-checked proof (Coq, 25 theorems, closed under the global context) over an executable model of CRNCanonicalizer / "
-              "CRNAutomorphism and the two network views, for ALL views: the canonical graph is the view relabelled by a bijection onto "
+LEVEL_TEXT = ("Machine-checked proof (Coq, 43 theorems, closed under the global context) over an executable model of CRNCanonicalizer / "
+              "CRNAutomorphism / WLCanonicalizer, the two network views and the analyzers' cached-view state, for ALL views: the canonical graph is the view relabelled by a bijection onto "
               "k+1..k+n (clause 1); a view renamed by a map injective on its nodes and presented in any other node/arc order gets the same "
               "minimal label and the identical canonical graph (clause 2: signature/label/initial partition equivariant, generic IR leaf "
               "enumeration equivariant, label string injective incl. decimal rendering, self-loops recovered from the refinement); equal "
@@ -1602,13 +1809,17 @@ LEVEL_TEXT = ("Machine-checked proof (Coq, 25 theorems, closed under the global 
               "preserving self-maps, and so is the reference enumerator the VF2 tool is compared with (clause 4, counts); fuel sufficiency "
               "of search and refinement; every view of a network lies in the theorems' domain; clause 2 also on networks (closed form of the "
               "bipartite view; species view); the reported orbits of both tools are exactly the exchangeability classes (the slot-based "
-              "union-find of _orbits_from_perms with its emptied slots and duplicated prefix positions is modelled and proved; VF2 itself is an "
-              "explicit, monitored premise). The model is tied to the Python code on every run by comparing the view graph, every _refine "
+              "union-find of _orbits_from_perms with its emptied slots and duplicated prefix positions is modelled and proved; so is the parent-dict "
+              "union-find with path halving of CRNAutomorphism, independent of the order of the mappings; VF2 itself is an "
+              "explicit, monitored premise). Also proved: the WL colour cells never split an orbit (any selection, any option); integer_ids gives the "
+              "identical canonical graph; max_depth: early_stop=False certifies the exact answer and a bound >= |V| never stops early; a kept "
+              "analyzer serves the current network after any sequence of mutating method calls (version cache of _CRNGraphBackend as a state "
+              "machine; refuted for edits behind the hypergraph's back). The model is tied to the Python code on every run by comparing the view graph, every _refine "
               "argument/result, the canonical permutation and label string, all minimal leaves, orbits, canonical graph, the VF2 "
               "count/orbits and the decidable premises, on an exhaustive small scope plus seeded random, ring/star, long, adversarially "
               "named networks and one-object analysis sequences.")
 LEVEL_NOTE = ("Trusted: Coq kernel + vm_compute; the hand-written model and the harness interning (rank in Python string order); "
               "networkx DiGraph/relabel_nodes semantics; VF2 as an enumerator of self-isomorphisms (explicit premise, monitored). "
-              "Tested, not proved: WLCanonicalizer (approximate by its "
-              "documentation) only for 'isomorphic to the view' and 'never splits a true orbit'. Known finding C18:view-id-collision: a species "
+              "Tested, not proved: the WL canonical relabelling (depends on digest values) is isomorphic to the view; blake2b digests do not "
+              "collide. Known finding C18:view-id-collision: a species "
               "label equal to a reaction id merges two view nodes (refuted-style witness theorem).")
